@@ -73,11 +73,13 @@ fn event_quick(cmd: &Map<String, Value>, q: &Quick, r: &CallResult, flag: bool, 
 pub struct World {
     pub insts: HashMap<i64, Inst>,
     reps: u64,
+    /// origin of the bracketing real-clock readings (`rt` commands)
+    epoch: std::time::Instant,
 }
 
 impl World {
     pub fn new() -> World {
-        World { insts: HashMap::new(), reps: 0 }
+        World { insts: HashMap::new(), reps: 0, epoch: std::time::Instant::now() }
     }
 
     /// Makes one feed / poll / reset call; returns what it returned, the equality observed through the
@@ -142,8 +144,32 @@ impl World {
             }
             "feed" | "poll" | "reset" => {
                 let q = Quick::of(cmd);
-                let (r, flag, snow) = self.exec_quick(&q);
-                sink(event_quick(cmd, &q, &r, flag, snow));
+                // "rt": bracket the call with two readings of the real clock (microseconds since the start
+                // of the run): whatever clock reading the call itself takes lies between them.  The
+                // production-configuration drivers use the brackets to DISCARD observations whose
+                // early / late classification the real passage of time does not settle.
+                let rt = cmd.get("rt").and_then(|v| v.as_bool()).unwrap_or(false);
+                // "thr": make the call on a thread of its own (a fresh one per call), so that a twin
+                // instance shares no thread-local state with the instance it is compared with
+                let thr = cmd.get("thr").and_then(|v| v.as_bool()).unwrap_or(false);
+                let epoch = self.epoch;
+                let mut call = || {
+                    let r0 = if rt { epoch.elapsed().as_micros() as u64 } else { 0 };
+                    let x = self.exec_quick(&q);
+                    let r1 = if rt { epoch.elapsed().as_micros() as u64 } else { 0 };
+                    (r0, x, r1)
+                };
+                let (r0, (r, flag, snow), r1) = if thr {
+                    std::thread::scope(|s| s.spawn(call).join().expect("worker thread"))
+                } else {
+                    call()
+                };
+                let mut e = event_quick(cmd, &q, &r, flag, snow);
+                if rt {
+                    put(&mut e, "r0", json!(r0));
+                    put(&mut e, "r1", json!(r1));
+                }
+                sink(e);
             }
             "tick" => {
                 let id = geti(cmd, "id");
